@@ -488,6 +488,28 @@ func (i c29In) String() string { b, _ := json.Marshal(i); return string(b) }
 
 const c29Tol = 1.0 // px: BoundingBox works on truncated integers
 
+// posMech names the mechanism of a label/icon overflow: the position family and, for outside positions, whether
+// the overflow is along the axis the position points to (primary) or across it.
+func posMech(pos, side string) string {
+	switch {
+	case strings.HasPrefix(pos, "BORDER_"):
+		return "border-position"
+	case strings.HasPrefix(pos, "OUTSIDE_TOP"), strings.HasPrefix(pos, "OUTSIDE_BOTTOM"):
+		if side == "top" || side == "bottom" {
+			return "outside-position:primary-axis"
+		}
+		return "outside-position:cross-axis"
+	case strings.HasPrefix(pos, "OUTSIDE_LEFT"), strings.HasPrefix(pos, "OUTSIDE_RIGHT"):
+		if side == "left" || side == "right" {
+			return "outside-position:primary-axis"
+		}
+		return "outside-position:cross-axis"
+	case pos == "":
+		return "unset-position"
+	}
+	return "inside-position"
+}
+
 func shapeFlags(s d2target.Shape) string {
 	var f []string
 	if s.ThreeDee {
@@ -558,14 +580,14 @@ func c29Oracle(in string) eng.Res {
 		if s, ok := shapes[it.obj]; ok {
 			switch it.kind {
 			case "label":
-				mech += ":" + s.LabelPosition + ":" + shapeFlags(s)
+				mech += ":" + posMech(s.LabelPosition, sd) + ":" + shapeFlags(s)
 			case "icon":
-				mech += ":" + s.IconPosition + ":" + shapeFlags(s)
+				mech += ":" + posMech(s.IconPosition, sd)
 			default:
 				mech += ":" + s.Type + ":" + shapeFlags(s)
 			}
 		}
-		return eng.Bad("drawn-outside-bounding-box:"+mech+":"+sd, fmt.Sprintf("%s of %q drawn at %v, BoundingBox() = %v (pad %d)\n%s", it.what, it.obj, it.ext, bb, a.Pad, a.Src))
+		return eng.Bad("drawn-outside-bounding-box:"+mech, fmt.Sprintf("%s of %q drawn at %v, BoundingBox() = %v (pad %d)\n%s", it.what, it.obj, it.ext, bb, a.Pad, a.Src))
 	}
 	// viewport ⊇ bounding box grown by pad
 	want := bb.grow(float64(a.Pad))
@@ -619,6 +641,18 @@ func c29Decos() []c29Deco {
 	return ds
 }
 
+var c29Quick = map[string]bool{}
+
+func init() {
+	for _, x := range []string{"a.shape: hexagon", "a.shape: oval", "a.shape: cloud", "a.shape: c4-person", "a.shape: image\na.icon: " + c29Icon, "a.shape: text", "a.shape: class",
+		"a.label.near: outside-top-center", "a.label.near: outside-left-center", "a.label.near: outside-right-bottom", "a.label.near: outside-bottom-right", "a.label.near: border-top-left", "a.label.near: border-right-top", "a.label.near: bottom-center", "a.label.near: top-left",
+		"a.icon: " + c29Icon, "a.icon: " + c29Icon + "\na.icon.near: outside-top-left", "a.icon: " + c29Icon + "\na.icon.near: outside-right-center", "a.icon: " + c29Icon + "\na.icon.near: outside-bottom-center", "a.icon: " + c29Icon + "\na.icon.near: border-bottom-center", "a.icon: " + c29Icon + "\na.icon.near: top-left",
+		"a.style.3d: true", "a.style.multiple: true", "a.style.shadow: true", "a.style.double-border: true", "a.style.stroke-width: 15", "a.style.font-size: 40", "a.label: A considerably longer label than the shape is wide", "a.width: 20", "a.k",
+		"direction: right", "(a -> b)[0].label: A long connection label that is wider than both shapes", "(a -> b)[0].source-arrowhead.label: 1..n", "(a -> b)[0].target-arrowhead.label: many", "(a -> b)[0].style.stroke-width: 12"} {
+		c29Quick[x] = true
+	}
+}
+
 func c29Src(ds ...c29Deco) string {
 	base := "a\n"
 	for _, d := range ds {
@@ -635,13 +669,13 @@ func c29Src(ds ...c29Deco) string {
 func init() {
 	eng.Register(&eng.Check{
 		ID: "C29", Level: "exploration",
-		Rule: "diagrams = base `a` (or `a -> b` when a connection decoration is present) plus ≤ 2 statements of a 67-statement decoration alphabet (12 shape types, label.near × 18 positions, icon and icon.near × 18 positions, 3d / multiple / shadow / double-border, stroke widths 0/9/15, border radius, font size, empty and long label, narrow width, a child, direction, connection label, both arrowhead labels, connection stroke width, arrowhead shape), each compiled + laid out (dagre) by d2lib.Compile and rendered by d2svg.Render with the phase's padding; the extent of every primitive the SVG draws for an object or connection is computed from the SVG itself and compared with Diagram.BoundingBox(), and the SVG viewBox with the bounding box grown by the padding; non-trivial = at least one primitive compared; ordered pairs of distinct statements are distinct diagrams",
+		Rule: "diagrams = base `a` (or `a -> b` when a connection decoration is present) plus ≤ 2 statements of a 98-statement decoration alphabet (12 shape types, label.near × every position of d2ast.LabelPositionsArray, icon and icon.near × every position, 3d / multiple / shadow / double-border, stroke widths 0/9/15, border radius, font size, empty and long label, narrow width, a child, direction, connection label, both arrowhead labels, connection stroke width, arrowhead shape), each compiled + laid out (dagre) by d2lib.Compile and rendered by d2svg.Render with the phase's padding; the extent of every primitive the SVG draws for an object or connection is computed from the SVG itself and compared with Diagram.BoundingBox(), and the SVG viewBox with the bounding box grown by the padding; non-trivial = at least one primitive compared; ordered pairs of distinct statements are distinct diagrams",
 		Assumptions: []string{
 			"`drawn` is read from the rendered SVG: rect / ellipse / circle / line / polygon / path (exact Bézier extents) / image / foreignObject boxes with half the stroke width added, shifted by enclosing translate() transforms; a shape group under the shadow filter is also counted shifted by the filter's feOffset (the blur radius is not counted)",
 			"plain-text labels are boxes of the measured LabelWidth×LabelHeight centred on the <text> anchor with the top at baseline − font-size (the convention d2svg uses); texts inside class / sql_table / code bodies count as their anchor point only",
 			"not compared (the statement does not name them): the background rectangle, arrowhead markers, appendix (tooltip/link) icons and positioned tooltips, connection label fills; elements under a non-translate transform or using arc path commands are skipped and counted in the outcome",
 			"tolerance 1 px, because BoundingBox truncates label coordinates to integers",
-			"padding values {0, 1, 100}: pad 0 over all ≤2-statement diagrams, pad 1 and 100 over the ≤1-statement diagrams (padding only enters the viewBox clause); the quantifier's `random padding` is replaced by these",
+			"padding values {0, 1, 100}: pad 0 over the 2-statement diagrams (quick: unordered pairs over a 35-statement sub-alphabet; thorough: all ordered pairs of the 98), pad 1 and 100 over the ≤1-statement diagrams (padding only enters the viewBox clause); the quantifier's `random padding` is replaced by these",
 		},
 		QuickBudget: 170 * time.Second, ThoroughBudget: 25 * time.Minute,
 		Oracles: map[string]eng.Oracle{"bbox": c29Oracle},
@@ -656,21 +690,34 @@ func init() {
 					}
 				}
 			})
-			// 2 statements, pad 0, in slices of the first statement so that the deadline is honoured
+			// 2 statements, pad 0, in slices of the first statement so that the deadline is honoured.
+			// quick: unordered pairs over a 35-statement sub-alphabet; thorough: all ordered pairs of the full alphabet.
+			pairs := ds
+			if !w.Thorough() {
+				pairs = nil
+				for _, d := range ds {
+					if c29Quick[strings.TrimSuffix(d.stmt, "\n")] {
+						pairs = append(pairs, d)
+					}
+				}
+				if len(pairs) != len(c29Quick) {
+					panic(fmt.Sprintf("harness: quick sub-alphabet matched %d of %d", len(pairs), len(c29Quick)))
+				}
+			}
 			step := 6
-			for lo := 0; lo < len(ds); lo += step {
+			for lo := 0; lo < len(pairs); lo += step {
 				lo := lo
 				hi := lo + step
-				if hi > len(ds) {
-					hi = len(ds)
+				if hi > len(pairs) {
+					hi = len(pairs)
 				}
-				w.Phase(fmt.Sprintf("2 statements, first in #%d..%d, pad 0", lo, hi-1), func() {
+				w.Phase(fmt.Sprintf("2 statements, first in #%d..%d of %d, pad 0", lo, hi-1, len(pairs)), func() {
 					for i := lo; i < hi; i++ {
-						for j := range ds {
+						for j := range pairs {
 							if i == j || (!w.Thorough() && j < i) {
-								continue // quick: unordered pairs (later statement wins only for same-key pairs, which thorough covers)
+								continue
 							}
-							w.Eval("bbox", c29In{Src: c29Src(ds[i], ds[j]), Pad: 0}.String())
+							w.Eval("bbox", c29In{Src: c29Src(pairs[i], pairs[j]), Pad: 0}.String())
 						}
 					}
 				})
